@@ -33,15 +33,87 @@ import (
 	"golang.org/x/net/http2/hpack"
 )
 
-// ---- wire tap (classification only) ----
+// ---- wire tap ----
+//
+// A passive parser on each direction of the pipe. It counts frame types and decodes
+// every header block (HEADERS + CONTINUATION) with its own HPACK decoder, in stream
+// order, so the header list size of RFC 9113 6.5.2 (sum of len(name)+len(value)+32)
+// of each block that was really sent is known exactly.
+
+type c14Block struct {
+	stream uint32
+	size   int
+	idx    string // value of vp-idx (request header blocks)
+	status string // value of :status (response header blocks)
+	ended  bool   // END_STREAM
+}
 
 type c14Wire struct {
 	mu      sync.Mutex
 	skip    int // bytes of connection preface still to skip
 	hdr     []byte
-	payload int
+	ftype   byte
+	flags   byte
+	stream  uint32
+	payload int    // payload bytes still expected
+	keep    bool   // buffer this frame's payload
+	buf     []byte // payload of the current HEADERS/CONTINUATION frame
 	frames  [16]int
 	maxData int
+	dec     *hpack.Decoder
+	cur     c14Block
+	blocks  []c14Block
+	decErr  error
+	open    bool // a HEADERS frame was seen whose block has not reached END_HEADERS
+}
+
+func newC14Wire(skip int) *c14Wire {
+	w := &c14Wire{skip: skip}
+	w.dec = hpack.NewDecoder(4096, func(f hpack.HeaderField) {
+		w.cur.size += len(f.Name) + len(f.Value) + 32
+		switch f.Name {
+		case "vp-idx":
+			w.cur.idx = f.Value
+		case ":status":
+			w.cur.status = f.Value
+		}
+	})
+	w.dec.SetAllowedMaxDynamicTableSize(1 << 30)
+	return w
+}
+
+func (w *c14Wire) frameDone() {
+	if !w.keep || w.decErr != nil {
+		return
+	}
+	frag := w.buf
+	if w.ftype == 1 { // HEADERS
+		w.open = true
+		w.cur = c14Block{stream: w.stream, ended: w.flags&0x1 != 0}
+		pad := 0
+		if w.flags&0x8 != 0 && len(frag) > 0 {
+			pad = int(frag[0])
+			frag = frag[1:]
+		}
+		if w.flags&0x20 != 0 && len(frag) >= 5 {
+			frag = frag[5:]
+		}
+		if pad <= len(frag) {
+			frag = frag[:len(frag)-pad]
+		}
+	}
+	if _, err := w.dec.Write(frag); err != nil {
+		w.decErr = err
+		return
+	}
+	if w.flags&0x4 != 0 { // END_HEADERS
+		if err := w.dec.Close(); err != nil {
+			w.decErr = err
+			return
+		}
+		w.blocks = append(w.blocks, w.cur)
+		w.open = false
+	}
 }
 
 func (w *c14Wire) feed(b []byte) {
@@ -56,8 +128,14 @@ func (w *c14Wire) feed(b []byte) {
 		}
 		if w.payload > 0 {
 			n := min(w.payload, len(b))
+			if w.keep {
+				w.buf = append(w.buf, b[:n]...)
+			}
 			w.payload -= n
 			b = b[n:]
+			if w.payload == 0 {
+				w.frameDone()
+			}
 			continue
 		}
 		n := min(9-len(w.hdr), len(b))
@@ -65,15 +143,21 @@ func (w *c14Wire) feed(b []byte) {
 		b = b[n:]
 		if len(w.hdr) == 9 {
 			l := int(w.hdr[0])<<16 | int(w.hdr[1])<<8 | int(w.hdr[2])
-			ty := w.hdr[3]
-			if ty < 16 {
-				w.frames[ty]++
+			w.ftype, w.flags = w.hdr[3], w.hdr[4]
+			w.stream = (uint32(w.hdr[5])<<24 | uint32(w.hdr[6])<<16 | uint32(w.hdr[7])<<8 | uint32(w.hdr[8])) & (1<<31 - 1)
+			if w.ftype < 16 {
+				w.frames[w.ftype]++
 			}
-			if ty == 0 && l > w.maxData {
+			if w.ftype == 0 && l > w.maxData {
 				w.maxData = l
 			}
 			w.payload = l
+			w.keep = w.ftype == 1 || w.ftype == 9
+			w.buf = w.buf[:0]
 			w.hdr = w.hdr[:0]
+			if l == 0 {
+				w.frameDone()
+			}
 		}
 	}
 }
@@ -319,6 +403,96 @@ func (c c14Cli) headerLimit() int {
 	return int(c.MaxHeaderList)
 }
 
+const c14DefaultUA = "Go-http-client/2.0"
+
+// reqListSize is the header list size (RFC 9113 6.5.2) of the request header block the
+// Transport builds for exchange k of the plan.
+func (q *c14Req) reqListSize(k int) int {
+	host := q.Host
+	if host == "" {
+		host = q.URLHost
+	}
+	method := q.Method
+	if method == "" {
+		method = "GET"
+	}
+	n := len(":authority") + len(host) + 32
+	n += len(":method") + len(method) + 32
+	n += len(":path") + len(q.url().RequestURI()) + 32
+	n += len(":scheme") + len(q.Scheme) + 32
+	if tr := c14Keys(c14Group(q.Trailers)); len(tr) > 0 && q.BodyKind == 2 {
+		n += len("trailer") + len(strings.Join(tr, ",")) + 32
+	}
+	n += c14ListSize(q.Fields)
+	for _, ck := range q.Cookies {
+		for _, piece := range strings.Split(ck, "; ") {
+			n += len("cookie") + len(piece) + 32
+		}
+	}
+	ua := q.UA
+	if ua == "" {
+		ua = c14DefaultUA
+	}
+	n += len("user-agent") + len(ua) + 32
+	n += len("vp-idx") + len(strconv.Itoa(k)) + 32
+	cl := -1
+	if q.BodyKind != 2 {
+		cl = 0
+	} else if t := c14Sum(q.Chunks); q.DeclLen && t > 0 {
+		cl = t
+	}
+	if cl > 0 || cl == 0 && (q.Method == "POST" || q.Method == "PUT" || q.Method == "PATCH") {
+		n += len("content-length") + len(strconv.Itoa(cl)) + 32
+	}
+	return n
+}
+
+// respMinSize is a lower bound of the final response header list: the fields of the
+// plan without anything the server may add.
+func (q *c14Req) respMinSize() int {
+	return len(":status") + 3 + 32 + c14ListSize(q.RFields)
+}
+
+// respListSize is the header list size of the final response header block; exact is
+// false when it depends on what the server adds on its own (sniffed Content-Type,
+// automatic Content-Length).
+func (q *c14Req) respListSize() (n int, exact bool) {
+	exact = true
+	g := c14Group(q.RFields)
+	n = len(":status") + 3 + 32 + c14ListSize(q.RFields)
+	if _, ok := g["Date"]; !ok {
+		n += len("date") + len(http.TimeFormat) + 32
+	}
+	noBody := q.Status == 204 || q.Status == 304
+	if q.RDeclLen {
+		n += len("content-length") + len(strconv.Itoa(q.respTotal())) + 32
+	} else if !noBody {
+		exact = false
+	}
+	if _, ok := g["Content-Type"]; !ok && !noBody && q.respTotal() > 0 {
+		exact = false
+	}
+	var decl []string
+	seen := map[string]bool{}
+	for _, f := range q.RTrailers {
+		if !seen[f.Name] {
+			seen[f.Name] = true
+			decl = append(decl, f.Name)
+		}
+	}
+	decl = append(decl, q.RUnset...)
+	if len(decl) > 0 {
+		if q.RTrStyle == 0 {
+			n += len("trailer") + len(strings.Join(decl, ", ")) + 32
+		} else {
+			for _, d := range decl {
+				n += len("trailer") + len(d) + 32
+			}
+		}
+	}
+	return n, exact
+}
+
 // c14OverLimit reports whether exchange q may legitimately fail because one of its
 // header lists may exceed what the receiving peer advertised (size + generous slack for
 // the fields the implementation adds itself).
@@ -543,8 +717,8 @@ func c14Run(c c14Case, r *vp.Rec) error {
 	if c.Cli.ReadBuf > 0 && !mayConnErr {
 		cliEnd.SetReadBufferSize(c.Cli.ReadBuf)
 	}
-	cliWire := &c14Wire{skip: len(ClientPreface)}
-	srvWire := &c14Wire{}
+	cliWire := newC14Wire(len(ClientPreface))
+	srvWire := newC14Wire(0)
 	srvDone := make(chan struct{})
 	startServer := func() {
 		tlsState := tls.ConnectionState{Version: tls.VersionTLS13, ServerName: "vp.test", CipherSuite: tls.TLS_AES_128_GCM_SHA256, NegotiatedProtocol: "h2"}
@@ -805,11 +979,118 @@ var c14ReqAllow = map[string]bool{"User-Agent": true, "Content-Length": true, "V
 var c14RespAllow = map[string]bool{"Content-Length": true, "Content-Type": true, "Date": true}
 
 func c14Judge(c *c14Case, srvObs []c14SrvObs, cliObs []c14CliObs, stray []string, cliWire, srvWire *c14Wire, r *vp.Rec) error {
+	// Exact header list accounting: an exchange may fail only if a header list that was
+	// really sent (or that the Transport had to refuse to send) is larger than the limit
+	// the receiving peer advertised; a list of size <= limit must be delivered. (A list
+	// far above the limit ends the whole connection, so the other exchanges of such a
+	// case may fail with it.)
 	lenient := false
-	for k := range c.Reqs {
-		if c.overLimit(&c.Reqs[k]) {
-			lenient = true
+	sLim, cLim := c.Srv.headerLimit(), c.Cli.headerLimit()
+	if cliWire.decErr != nil || srvWire.decErr != nil {
+		r.Class("wire-decode-error")
+		for k := range c.Reqs {
+			if c.overLimit(&c.Reqs[k]) {
+				lenient = true
+			}
 		}
+	} else {
+		streamOf := map[int]uint32{}
+		seen := map[uint32]int{}
+		reqHdr, reqTr := map[int]int{}, map[int]int{}
+		for _, b := range cliWire.blocks {
+			seen[b.stream]++
+			if seen[b.stream] == 1 {
+				if k, err := strconv.Atoi(b.idx); err == nil && k >= 0 && k < len(c.Reqs) {
+					streamOf[k] = b.stream
+					reqHdr[k] = b.size
+				}
+				continue
+			}
+			for k, st := range streamOf {
+				if st == b.stream {
+					reqTr[k] = b.size
+				}
+			}
+		}
+		edge := func(what string, size, lim int) {
+			switch size - lim {
+			case -1:
+				r.Class(what + "==limit-1")
+			case 0:
+				r.Class(what + "==limit")
+			case 1:
+				r.Class(what + "==limit+1")
+			}
+		}
+		for k := range c.Reqs {
+			q := &c.Reqs[k]
+			size := q.reqListSize(k)
+			if m, ok := reqHdr[k]; ok {
+				if m != size {
+					r.Class("harness-req-size-mispredicted")
+				}
+				size = m
+			}
+			edge("req-header-list", size, sLim)
+			if size > sLim {
+				lenient = true
+			}
+			if len(q.Trailers) > 0 {
+				size = c14ListSize(q.Trailers)
+				if m, ok := reqTr[k]; ok {
+					if m != size {
+						r.Class("harness-req-trailer-size-mispredicted")
+					}
+					size = m
+				}
+				edge("req-trailer-list", size, sLim)
+				if size > sLim {
+					lenient = true
+				}
+			}
+			// what the plan alone settles about the reply: the generated fields are a
+			// lower bound of the response header list, the trailer lists are exact
+			// (a list far above the limit makes the Transport end the connection at the
+			// first fragment, so the block may never be complete on the wire)
+			if q.respMinSize() > cLim || c14ListSize(q.RTrailers)+c14ListSize(q.RPTrailers) > cLim {
+				lenient = true
+			}
+			st, sent := streamOf[k]
+			if !sent {
+				continue
+			}
+			// a header block that was cut off mid-way cannot be measured: fall back to
+			// the conservative estimate for its exchange
+			if (cliWire.open && cliWire.cur.stream == st || srvWire.open && srvWire.cur.stream == st) && c.overLimit(q) {
+				r.Class("unfinished-header-block")
+				lenient = true
+			}
+			pred, exact := q.respListSize()
+			for _, b := range srvWire.blocks {
+				if b.stream != st {
+					continue
+				}
+				switch {
+				case b.status == "":
+					edge("resp-trailer-list", b.size, cLim)
+				case len(b.status) == 3 && b.status[0] != '1':
+					edge("resp-header-list", b.size, cLim)
+					if exact && b.status == strconv.Itoa(q.Status) {
+						if b.size == pred {
+							r.Class("resp-size-predicted-exactly")
+						} else {
+							r.Class("harness-resp-size-mispredicted")
+						}
+					}
+				}
+				if b.size > cLim {
+					lenient = true
+				}
+			}
+		}
+	}
+	if c.Aim != "" {
+		r.Class("aim:" + c.Aim)
 	}
 	if len(stray) > 0 {
 		return fmt.Errorf("handler received a request that was never sent: %s", stray[0])
